@@ -814,7 +814,12 @@ func hostText(t *rapid.T, a netip.Addr, forcePort, allowZone bool) (string, stri
 	}
 	tags = append(tags, "v6")
 	s := a.String()
-	switch gen.U(t, 4, "v6form") {
+	switch gen.U(t, 5, "v6form") {
+	case 4:
+		// the longest textual form: six full groups followed by the last 32 bits as a dotted quad (up to 45 bytes)
+		b := a.As16()
+		s = expanded(a)[:30] + fmt.Sprintf("%d.%d.%d.%d", b[12], b[13], b[14], b[15])
+		tags = append(tags, "v6-expanded-dotted-quad")
 	case 2:
 		s = expanded(a)
 		tags = append(tags, "v6-expanded")
